@@ -203,7 +203,7 @@ Proof.
   rewrite print_nat_4 by lia. unfold d4, d2. cbn [app firstn]. rewrite (strptime_ymd_ok _ _ _ V). reflexivity.
 Qed.
 
-(* time: depends on what the translated sql2py returns *)
+(* time: depends on what the translated sql2py returns (a sql2py whose strptime call or returned expression raises hands back the raw string) *)
 Theorem time_reload_full_if_fixed p t :
   time_reloads_as_str = false -> 0 <= p <= 6 -> valid_time t -> reload_time p t = RVal (validate_time p t).
 Proof.
@@ -213,13 +213,12 @@ Proof.
            rewrite (time_text_parses _ (valid_validate_time p t Hp V)); reflexivity) ].
 Qed.
 
-Theorem time_reload_refuted :
-  time_reloads_as_str = true -> forall p t, exists s, reload_time p t = RStr s.
-Proof.
-  intros F.
-  first [ (vm_compute in F; discriminate F)
-        | (intros p t; unfold reload_time, sqlite_time_sql2py; break_if; eexists; reflexivity) ].
-Qed.
+(* the translation of the current /repo returns the parsed time (repaired in /repo commit c022f0e): the flag computes to false *)
+Lemma time_flag_false : time_reloads_as_str = false.
+Proof. vm_compute. reflexivity. Qed.
+
+Theorem time_reload p t : 0 <= p <= 6 -> valid_time t -> reload_time p t = RVal (validate_time p t).
+Proof. exact (time_reload_full_if_fixed p t time_flag_false). Qed.
 
 (* ------------------------------------------------------------------------------------------------ Decimal *)
 Lemma quantize_at_scale sc c : quantize sc (c, - sc) = (c, - sc).
